@@ -9,7 +9,7 @@
    Statements of the form "forall w, hsum w (op h) = hsum (w o f) h" say that op is the push-forward
    of the histogram along f on keys: nothing is lost, created or moved to a wrong key. *)
 From Coq Require Import String ZArith QArith Qcanon List Bool.
-From Tangelo Require Import Num.Show Post.Histogram Post.Grouping Post.HistogramProofs Post.GroupingProofs Post.Packaging Post.Resample Post.ResampleProofs.
+From Tangelo Require Import Num.Show Post.Histogram Post.Grouping Post.HistogramProofs Post.ApportionProofs Post.GroupingProofs Post.Packaging Post.Resample Post.ResampleProofs.
 From Gen Require Import PostTables.
 Import ListNotations.
 Local Open Scope Qc_scope.
@@ -69,11 +69,12 @@ Print Assumptions C18_frequencies_normalised.
       totals and values unchanged *)
 Theorem C18_reverse_is_bijection :
   forall (o : hist) (n : Z) (eps : Qc),
-    mk_histogram o n true eps = match mk_histogram o n false eps with Ok h => Ok (rev_keys h) | Err e => Err e end
+    mk_histogram_with conversion_rule o n true eps
+    = match mk_histogram_with conversion_rule o n false eps with Ok h => Ok (rev_keys h) | Err e => Err e end
     /\ (forall h, rev_keys (rev_keys h) = h)
     /\ (forall h w, hsum w (rev_keys h) = hsum (fun k => w (rev k)) h)
     /\ (forall h k, hget (rev_keys h) (rev k) = hget h k).
-Proof. exact pk_reverse_is_bijection. Qed.
+Proof. exact (pk_reverse_is_bijection conversion_rule). Qed.
 Print Assumptions C18_reverse_is_bijection.
 
 Theorem C18_reverse_twice :
@@ -127,36 +128,44 @@ Proof. exact trailing_renumbered. Qed.
 Print Assumptions C18_trailing_ancillas_need_no_renumbering.
 
 (* ------------------------------------------------------------------------------------------------
-   7. Histogram(probabilities, n_shots): per-key rounding.  Refuted as a conservation law, with the
-      witness replayed on the real code by the check; what does hold is the bound and the exact case. *)
-Theorem C18_histogram_total_refuted :
-  exists (o : hist) (n : Z) (h : hist),
-    total o = 1 /\ mk_histogram o n default_msq_first default_epsilon = Ok h /\ total h <> Z2Qc n.
-Proof.
-  assert (He : Qc_gtb 0 default_epsilon = false) by (vm_compute; reflexivity).
-  destruct (histogram_total_refuted_at default_epsilon He) as [h [T1 [Hm [_ Hne]]]].
-  exists witness_thirds, 10%Z, h. split; [exact T1|]. split; [exact Hm|exact Hne].
-Qed.
-Print Assumptions C18_histogram_total_refuted.
+   7. Histogram(probabilities, n_shots).  [conversion_rule] is regenerated from Histogram.__init__: the
+      repaired code (fix 944f963) floors every v*n_shots and hands the missing shots to the largest
+      remainders, ties in key order.  The statements below are about the code's current rule; they do
+      not type-check for the rule before the repair (see the as-is Examples further down). *)
+Theorem C18_histogram_total :
+  forall (o : hist) (n : Z) (msq : bool) (eps : Qc) (h : hist), (0 < n)%Z -> NoDup (keys o) ->
+    mk_histogram_with conversion_rule o n msq eps = Ok h -> total h = Z2Qc (round_half_even (total o * Z2Qc n)).
+Proof. exact histogram_total_full. Qed.
+Print Assumptions C18_histogram_total.
 
-Theorem C18_histogram_total_bound_partial :
-  forall (o : hist) (n : Z) (msq : bool) (eps : Qc) (h : hist), (0 < n)%Z -> mk_histogram o n msq eps = Ok h ->
-    total o * Z2Qc n - count o * half <= total h /\ total h <= total o * Z2Qc n + count o * half.
-Proof. exact histogram_total_bound. Qed.
-Print Assumptions C18_histogram_total_bound_partial.
+(* normalised probabilities: the histogram holds exactly n_shots shots *)
+Theorem C18_histogram_total_is_n_shots :
+  forall (o : hist) (n : Z) (msq : bool) (eps : Qc) (h : hist), (0 < n)%Z -> NoDup (keys o) -> total o = 1 ->
+    mk_histogram_with conversion_rule o n msq eps = Ok h -> total h = Z2Qc n.
+Proof. exact histogram_total_is_n_shots. Qed.
+Print Assumptions C18_histogram_total_is_n_shots.
 
-Theorem C18_histogram_total_exact_when_integral :
+(* same keys in the same order, every count within 1 of p*n_shots *)
+Theorem C18_histogram_counts_within_one :
+  forall (o : hist) (n : Z) (eps : Qc) (h : hist), (0 < n)%Z -> mk_histogram_with conversion_rule o n false eps = Ok h ->
+    Forall2 (fun kv kc => fst kc = fst kv /\ snd kv * Z2Qc n - 1 < snd kc /\ snd kc <= snd kv * Z2Qc n + 1) o h.
+Proof. exact histogram_within_one. Qed.
+Print Assumptions C18_histogram_counts_within_one.
+
+(* frequencies that are multiples of 1/n_shots: counts = p*n_shots exactly (as before the repair) *)
+Theorem C18_histogram_exact_when_integral :
   forall (o : hist) (n : Z) (msq : bool) (eps : Qc) (h : hist), (0 < n)%Z -> integral_at n o ->
-    mk_histogram o n msq eps = Ok h -> total h = total o * Z2Qc n.
-Proof. exact histogram_total_exact. Qed.
-Print Assumptions C18_histogram_total_exact_when_integral.
+    mk_histogram_with conversion_rule o n msq eps = Ok h ->
+    h = (if msq then rev_keys (scaled n o) else scaled n o) /\ total h = total o * Z2Qc n.
+Proof. exact (histogram_exact_when_integral conversion_rule). Qed.
+Print Assumptions C18_histogram_exact_when_integral.
 
 (* the deterministic step of Histogram.resample: Histogram(h.frequencies, n_shots) is h again *)
 Theorem C18_frequencies_roundtrip :
   forall (h : hist) (n : Z) (eps : Qc), (0 < n)%Z -> integer_counts h -> total h = Z2Qc n ->
     lengths_consistent h = true -> Qc_gtb 0 eps = false ->
-    exists f, frequencies h = Ok f /\ mk_histogram f n false eps = Ok h.
-Proof. exact frequencies_roundtrip. Qed.
+    exists f, frequencies h = Ok f /\ mk_histogram_with conversion_rule f n false eps = Ok h.
+Proof. exact (frequencies_roundtrip conversion_rule). Qed.
 Print Assumptions C18_frequencies_roundtrip.
 
 (* the chunk loop of get_resampled_frequencies (chunk size regenerated from bootstrapping.py): the sizes
@@ -228,11 +237,38 @@ Proof.
   all: repeat constructor; unfold Qcle; simpl; discriminate.
 Qed.
 
-(* the refuted witness, and a case where the constructor is exact *)
-Example C18_example_rounding :
-  show_res show_hist (mk_histogram witness_thirds 10 false default_epsilon) = "{00:3,01:3,10:3}"%string
-  /\ show_res show_hist (mk_histogram [(K "0", Qf 1 2); (K "1", Qf 1 2)] 3 false default_epsilon) = "{0:2,1:2}"%string
-  /\ show_res show_hist (mk_histogram [(K "0", Qf 1 4); (K "1", Qf 3 4)] 8 true default_epsilon) = "{0:2,1:6}"%string.
+(* the repaired rule on the former witness, on exact .5 ties (key order), and an exact case *)
+Example C18_example_apportion :
+  conversion_rule = LargestRemainder
+  /\ show_res show_hist (mk_histogram witness_thirds 10 false default_epsilon) = "{00:4,01:3,10:3}"%string
+  /\ show_res show_hist (mk_histogram [(K "1", Qf 3 4); (K "0", Qf 1 4)] 2 false default_epsilon) = "{0:1,1:1}"%string
+  /\ show_res show_hist (mk_histogram [(K "0", Qf 1 2); (K "1", Qf 1 2)] 3 false default_epsilon) = "{0:2,1:1}"%string
+  /\ show_res show_hist (mk_histogram [(K "0", Qf 1 4); (K "1", Qf 3 4)] 8 true default_epsilon) = "{0:2,1:6}"%string
+  /\ NoDup (keys witness_thirds).
+Proof.
+  split; [reflexivity|]. split; [vm_compute; reflexivity|]. split; [vm_compute; reflexivity|].
+  split; [vm_compute; reflexivity|]. split; [vm_compute; reflexivity|].
+  repeat constructor; simpl; intuition discriminate.
+Qed.
+
+(* the rule BEFORE the repair (per-key round(v*n_shots)), kept as the as-is variant: conservation of the
+   number of shots is refuted by three equiprobable outcomes and 10 shots; only a bound held *)
+Example C18_asis_per_key_rounding_refuted :
+  exists (o : hist) (n : Z) (h : hist),
+    total o = 1 /\ mk_histogram_asis o n default_msq_first default_epsilon = Ok h /\ total h <> Z2Qc n.
+Proof.
+  assert (He : Qc_gtb 0 default_epsilon = false) by (vm_compute; reflexivity).
+  destruct (asis_total_refuted_at default_epsilon He) as [h [T1 [Hm [_ Hne]]]].
+  exists witness_thirds, 10%Z, h. split; [exact T1|]. split; [exact Hm|exact Hne].
+Qed.
+Example C18_asis_total_bound :
+  forall (o : hist) (n : Z) (msq : bool) (eps : Qc) (h : hist), (0 < n)%Z -> mk_histogram_asis o n msq eps = Ok h ->
+    total o * Z2Qc n - count o * half <= total h /\ total h <= total o * Z2Qc n + count o * half.
+Proof. exact asis_total_bound. Qed.
+Example C18_asis_examples :
+  show_res show_hist (mk_histogram_asis witness_thirds 10 false default_epsilon) = "{00:3,01:3,10:3}"%string
+  /\ show_res show_hist (mk_histogram_asis [(K "1", Qf 3 4); (K "0", Qf 1 4)] 2 false default_epsilon) = "{0:0,1:2}"%string
+  /\ show_res show_hist (mk_histogram_asis [(K "0", Qf 1 2); (K "1", Qf 1 2)] 3 false default_epsilon) = "{0:2,1:2}"%string.
 Proof. vm_compute. repeat split. Qed.
 
 (* grouping: H = 2 I + 1/2 X0 + 1/4 Z0 on the state |+>; two bases; value 2 + 1/2 *)
